@@ -28,7 +28,7 @@ type upload struct {
 	gaveUp              bool  // stream answered / reset before the body was out
 	violated            bool
 	sentBeforeViolation int
-	cancelAt            int  // the client gives the request up (RST_STREAM) once this many body bytes are out; -1 never
+	cancelAt            int // the client gives the request up (RST_STREAM) once this many body bytes are out; -1 never
 	cancelled           bool
 }
 
